@@ -124,7 +124,7 @@ Proof.
   set (c := csum_fold (sumN' (map red [S0]))).
   assert (Hc : Hdrs.ip_csum (ip_calc_csum h) = c).
   { unfold ip_calc_csum, ip_checksum, c. cbn [Hdrs.ip_csum ip_set_csum]. rewrite csum_partial_red, E0.
-    cbn [map sumN']. rewrite N.add_0_r. reflexivity. }
+    rewrite (N.mod_small S0) by lia. cbn [map sumN']. rewrite N.add_0_r. reflexivity. }
   assert (Hlt : c < 65536).
   { unfold c. cbn [map sumN']. rewrite N.add_0_r. apply csum_fold_lt. pose proof (red_bound S0 ltac:(lia)). lia. }
   assert (W : wsum (ip_ser (ip_calc_csum h)) = sumN' [S0] + c).
